@@ -23,6 +23,7 @@ func NewThrottle(limit int) *Throttle {
 // Add calls the provided callback or queues it if the limit of concurrently
 // running callbacks is reached.
 func (t *Throttle) Add(cb func()) {
+	verifThrottle(t)
 	t.mu.Lock()
 
 	if t.running >= t.limit {
